@@ -14,12 +14,16 @@ pub mod search;
 pub mod verif_hooks;
 #[path = "/repo/src/chess/scores.rs"]
 pub mod scores_data;
+#[path = "/repo/src/autoplay.rs"]
+pub mod autoplay;
 
 mod eng;
 mod evid;
 mod gen;
 mod m_rules;
+mod m_mem;
 mod m_search;
+mod m_text;
 mod m_uci;
 mod m_undo;
 mod par;
@@ -84,6 +88,8 @@ fn run(prop: &str, tier: &str, seed: u64) -> i32 {
             with_part(chk, agg, "C10uci", tier, seed, &[("UCI-level go commands judged", "uci_gos_judged", 200), ("UCI `bestmove none` on dead roots", "uci_bestmove_none_on_dead_root", 5)])
         }
         "C13" => m_uci::run_c13(tier, seed),
+        "C15" => m_mem::run(tier, seed),
+        "C17" => m_text::run(tier, seed),
         "C14" => m_uci::run_c14(tier, seed),
         "C19" => {
             let (chk, agg) = m_uci::run_c19(tier, seed);
@@ -109,6 +115,10 @@ fn worker(mode: &str, shard: usize, nshards: usize, seed: u64, tier: &str, out: 
         "C12cmd" => m_uci::worker_c12cmd(shard, nshards, seed, tier, out),
         "C20show" => m_uci::worker_c20show(shard, nshards, seed, tier, out),
         "C13" => m_uci::worker_c13(shard, nshards, seed, tier, out),
+        "C15" => m_mem::worker(shard, nshards, seed, tier, out),
+        "C15bin" => m_mem::worker_bin(shard, nshards, seed, tier, out),
+        "C17" => m_text::worker(shard, nshards, seed, tier, out),
+        "C17cmd" => m_text::worker_cmd(shard, nshards, seed, tier, out),
         "C14" => m_uci::worker_c14(shard, nshards, seed, tier, out),
         "C19" => m_uci::worker_c19(shard, nshards, seed, tier, out),
         _ => usage(),
@@ -121,6 +131,8 @@ fn replay(prop: &str, case: &Value, out: &mut par::Out) {
         ("C12", "position-moves") => m_uci::replay_c12cmd(case, out),
         ("C14", _) => m_uci::replay_session(prop, case, out),
         ("C13", _) => m_uci::replay_c13(case, out),
+        ("C15", _) => m_mem::replay(case, out),
+        ("C17", _) => m_text::replay(case, out),
         ("C19", _) => m_uci::replay_c19(case, out),
         ("C06" | "C07" | "C10" | "C18", "session") => m_uci::replay_ucisample(prop, case, out),
         (p, _) if WALK.contains(&p) || p == "C12" || p == "C20" => m_rules::replay(p, case, out),
